@@ -16,7 +16,7 @@ NAMES = ['x', 'y', 'z']
 
 
 def bounds(tier):
-    return dict(variables=3, order_pairs=36 if tier == 'thorough' else 8, sampled_5var=150 if tier == 'quick' else 3000)
+    return dict(variables=3, order_pairs=36 if tier == 'thorough' else 8, sampled_5var=150 if tier == 'quick' else 3000 * DEEP)
 
 
 def chunks(tier, seed):
@@ -28,10 +28,10 @@ def chunks(tier, seed):
     out = []
     for so, to in pairs:
         out.append(('case_all3', [dict(src=list(so), dst=list(to), extra=e, seed=seed) for e in (0, 1)]))
-    n5 = 150 if tier == 'quick' else 3000
+    n5 = 150 if tier == 'quick' else 3000 * DEEP
     for k in range(0, n5, 25):
         out.append(('case_sampled', [dict(seed=seed * 131 + k, count=25, nvars=4 + (k // 25) % 2)]))
-    out.append(('case_copy_vars', [dict(seed=seed + k) for k in range(20 if tier == 'quick' else 200)]))
+    out.append(('case_copy_vars', [dict(seed=seed + k) for k in range(20 if tier == 'quick' else 200 * DEEP)]))
     return out
 
 
